@@ -112,6 +112,7 @@ struct Plan {
         bool scribble = false; // refused reads scribble on *ch (C03 only)
         int lockfail = -1, unlockfail = -1; // C16: index of the lock / unlock call that fails
         uint64_t sched = 0; // C17: seed of the thread scheduler (0 = single-threaded plan)
+        bool other = false; // a second, unrelated parser instance is serviced in between (same process, own descriptor and io)
         std::vector<GroupSpec> groups;
         std::vector<CmdSpec> cmds;
         std::vector<Op> ops;
